@@ -214,14 +214,15 @@ Definition ulog_ok (s : state) : Prop :=
   end.
 
 Definition wait_ok (s : state) : Prop :=
-  (forall e, UAwait e ∈ s.(uscr) -> e < length s.(evs)) /\
-  (s.(pc) = PIdle -> s.(pollable) = true \/
+  s.(pc) = PIdle -> s.(pollable) = true \/
      match s.(sst) with
      | SWaitQueue => s.(ready).(o_waker) = Some WTask /\ s.(pool) = true
-     | SWaitFuture => exists e r c, s.(uscr) = UAwait e :: r /\ s.(evs) !! e = Some c /\ c.(fired) = false /\ WTask ∈ c.(regs)
+     | SWaitFuture => exists e r, s.(uscr) = UAwait e :: r /\
+                        (s.(evs) !! e = None \/
+                         exists c, s.(evs) !! e = Some c /\ c.(fired) = false /\ WTask ∈ c.(regs))
      | SWaitSched _ => s.(sf).(sf_res) = SfNone /\ s.(sf).(sf_waker) = Some WTask /\ s.(pool) = true
      | SCompleted => False
-     end).
+     end.
 
 Record Inv (F : sfacts) (nb na : nat) (s : state) : Prop := {
   i_q : qshape nb na s;
@@ -234,9 +235,9 @@ Record Inv (F : sfacts) (nb na : nat) (s : state) : Prop := {
 }.
 
 (* ---------- initial state ---------- *)
-Lemma init_inv F pl nb na scr v nev : script_ok nev scr -> Inv F nb na (init pl nb na scr v nev).
+Lemma init_inv F pl nb na scr v nev : Inv F nb na (init pl nb na scr v nev).
 Proof.
-  intros Hscr. split.
+  split.
   - eapply (QA _ _ _ 0); cbn; try lia; try set_solver.
     + unfold full_queue. by rewrite Nat.sub_0_r.
     + intros k. split; [set_solver|lia].
@@ -248,9 +249,7 @@ Proof.
   - unfold sst_ok; cbn. split; [done|]. split; [by left|done].
   - unfold pc_ok; cbn. done.
   - unfold ulog_ok; cbn. split; [|split]; [split; [set_solver|done]|set_solver|]. split_and!; try set_solver. intros ?; set_solver.
-  - unfold wait_ok; split; cbn.
-    + intros e He. rewrite replicate_length. by apply Hscr.
-    + intros _. by left.
+  - unfold wait_ok; cbn. intros _. by left.
   - apply log_ok_nil.
 Qed.
 
